@@ -1038,6 +1038,10 @@ class RequestHandler(BaseProtocol, Generic[_Request]):
             # mode: its body parser refuses EOF while the body is outstanding.
             with suppress(HttpProcessingError):
                 self._parser.feed_eof()
+        if self._close or self._force_close:
+            # The connection is closed after this response (e.g. the server is
+            # shutting down): the response must not announce a persistent one.
+            resp.force_close()
         try:
             await prepare_meth(request)
             await resp.write_eof()
